@@ -85,7 +85,10 @@ RULE = ('cases 0-15 = the 16 factory flag tuples (get_predefined must return a c
         'transitions under a fresh event id), the trigger being used again; 15%% of the calls use a name the machine does '
         'not know, under every ignore_invalid_triggers setting of machine and state: the non-nested classes must equal '
         'Machine (False / AttributeError raised directly), the nested ones the Coq hierarchical engine (AttributeError '
-        'routed through on_exception / finalize). Each case runs on 12 classes x '
+        'routed through on_exception / finalize). "ctor" = states given as dicts, part of them WITHOUT an '
+        'ignore_invalid_triggers key on a machine built with the flag set (they snapshot it), transitions given '
+        'positionally with 6-8 entries (constructor transitions=[[...]], add_transitions, add_transition(*args)); later '
+        'machine.ignore_invalid_triggers is assigned the opposite value (and back), followed by invalid and unknown events. Each case runs on 12 classes x '
         '{by name, through the factory} x diagram backends %s (unavailable here: %s). Non-trivial: the base run '
         'executed a transition after a failed check, or processed >= 2 events / raised, and at least one async class '
         'was compared inside the async envelope; distinct by case hash.' % (BACKENDS, MISSING_BACKENDS))
@@ -621,6 +624,93 @@ def gen_reconf(rng):
     return c
 
 
+def gen_ctor(rng):
+    """construction routes + a machine flag changed later: states are dicts, some WITHOUT an ignore_invalid_triggers key
+    (they snapshot the machine's setting when they are created); transitions are given positionally / in list form
+    with 6-8 entries through the constructor, add_transitions and add_transition(*args); later
+    machine.ignore_invalid_triggers is assigned the opposite value (and back) and invalid / unknown events follow"""
+    c = flat.gen_case(rng, malformed=False, p_unknown=0.0, hist_len=1)
+    m = c['machine']
+    for _, ts in m['events']:
+        for t in ts:
+            t['conds'] = t['conds'][:1]
+    flag = rng.random() < 0.65                      # the machine is built with ignore_invalid_triggers=flag
+    m['ignore'] = flag
+    omit = []
+    for sid, d in m['states']:
+        if d['ignore'] is None or rng.random() < 0.3:
+            omit.append(sid)                        # no key in the state dict: the state snapshots `flag`
+            d['ignore'] = flag
+    ne = len(m['events'])
+    routes = dict((str(e), rng.choice(['ctor', 'add_transitions', 'add_transition'])) for e, _ in m['events'])
+    ops, j = [], [0]
+
+    def trigs(n):
+        for _ in range(n):
+            e = UNKNOWN_EVENT if rng.random() < 0.25 else rng.randrange(ne)
+            ops.append(['trig', rng.choice([0, 0, 2]), e, 100 + j[0]])
+            j[0] += 1
+    trigs(rng.randint(1, 3))
+    ops.append(['setignore', not flag])
+    trigs(rng.randint(2, 5))
+    if rng.random() < 0.5:
+        ops.append(['setignore', flag])
+        trigs(rng.randint(1, 3))
+    c['ops'] = ops
+    c['ctor'] = dict(omit=omit, routes=routes)
+    c['queued'] = 0
+    c.pop('cls', None)
+    c.pop('history', None)
+    c['sub'] = 'reconf'
+    c['stream'] = 'ctor'
+    return c
+
+
+def build_ctor(case, world, cls, extra_kwargs):
+    """public constructor / add_transitions / add_transition(*args) with POSITIONAL transition options
+    (trigger, source, dest, conditions, unless, before, after, prepare), 6-8 entries"""
+    m = case['machine']
+    R = world.recorder
+    omit = set(case['ctor']['omit'])
+    states = []
+    for sid, d in m['states']:
+        sd = dict(name='s%d' % sid, on_enter=[R('enter', c) for c in d['enter']],
+                  on_exit=[R('exit', c) for c in d['exit']], final=d['final'])
+        if sid not in omit:
+            sd['ignore_invalid_triggers'] = d['ignore']
+        states.append(sd)
+
+    def row(e, t):
+        full = ['e%d' % e, 's%d' % t['src'], None if t['dst'] is None else 's%d' % t['dst'],
+                [R('cond', c) for c, tg in t['conds'] if tg], [R('unless', c) for c, tg in t['conds'] if not tg],
+                [R('before', c) for c in t['before']], [R('after', c) for c in t['after']],
+                [R('prepare', c) for c in t['prepare']]]
+        n = 8
+        while n > 6 and not full[n - 1]:
+            n -= 1                                   # trailing empty options may be left out: 6, 7 or 8 entries
+        return full[:n]
+    by_route = dict(ctor=[], add_transitions=[], add_transition=[])
+    for e, ts in m['events']:
+        for t in ts:
+            by_route[case['ctor']['routes'][str(e)]].append(row(e, t))
+    model = flat.Model()
+    kw = dict(model=model, states=states, initial='s%d' % case['init'], transitions=by_route['ctor'],
+              auto_transitions=False, send_event=m['send'], ignore_invalid_triggers=m['ignore'],
+              prepare_event=[R('prepare_event', c) for c in m['prepare_event']],
+              before_state_change=[R('before_sc', c) for c in m['before_sc']],
+              after_state_change=[R('after_sc', c) for c in m['after_sc']],
+              finalize_event=[R('finalize', c) for c in m['finalize']],
+              on_exception=[R('on_exception', c) for c in m['on_exception']],
+              on_final=[R('on_final', c) for c in m['on_final']])
+    kw.update(extra_kwargs)
+    machine = cls(**kw)
+    if by_route['add_transitions']:
+        machine.add_transitions(by_route['add_transitions'])
+    for r in by_route['add_transition']:
+        machine.add_transition(*r)
+    return machine, model
+
+
 def reconf_model_case(case):
     """the flat case handed to the Coq engines: a removal re-binds the trigger name to a FRESH event that keeps the
     remaining transitions (none left: the name becomes unknown) — what Machine.remove_transition does, as data"""
@@ -632,6 +722,8 @@ def reconf_model_case(case):
     for op in case['ops']:
         if op[0] == 'trig':
             hist.append([op[1], cur.get(op[2], UNKNOWN_EVENT), op[3]])
+        elif op[0] == 'setignore':
+            continue        # every state of these cases carries its own (given or snapshot) flag: no effect
         else:
             _, e, src, dst = op
             old = [ts for k, ts in events if k == cur.get(e)]
@@ -654,7 +746,8 @@ def gen_batch(seed, n, tier):
     crash_bases = []
     for i in range(n):
         rng = random.Random('C09-%d-%d' % (seed, i))
-        stream = ('flat', 'crash', 'queue', 'dispatch', 'crash', 'pickle', 'may', 'queue', 'ordered', 'reconf')[i % 10]
+        stream = ('flat', 'crash', 'queue', 'dispatch', 'crash', 'pickle', 'may', 'queue', 'ordered', 'reconf',
+                  'ctor')[i % 11]
         if stream == 'queue':
             cases.append(gen_queue(rng))
         elif stream == 'dispatch':
@@ -663,6 +756,8 @@ def gen_batch(seed, n, tier):
             cases.append(gen_pickle(rng))
         elif stream == 'reconf':
             cases.append(gen_reconf(rng))
+        elif stream == 'ctor':
+            cases.append(gen_ctor(rng))
         else:
             follow = rng.randint(2, 4) if stream == 'crash' else 0     # events after the crashing call
             if stream == 'ordered':
@@ -1138,8 +1233,11 @@ def run_reconf_on(case, cls, flags, backend):
         world.aperform = noop
         c2 = dict(case)
         c2['history'] = []
-        machine, model = flat.build_machine(c2, world, cls=cls,
-                                            extra_kwargs=dict(queued=False, **class_kwargs(flags, backend)))
+        if case.get('ctor'):
+            machine, model = build_ctor(case, world, cls, dict(queued=False, **class_kwargs(flags, backend)))
+        else:
+            machine, model = flat.build_machine(c2, world, cls=cls,
+                                                extra_kwargs=dict(queued=False, **class_kwargs(flags, backend)))
         world.model_ids[id(model)] = case.get('model', 0)
         world.current_model = model
         out, free = [], 1
@@ -1158,6 +1256,8 @@ def run_reconf_on(case, cls, flags, backend):
                 except BaseException as ex:  # noqa
                     res = [1, classify_exc(ex)]
                 out.append([world.items, res, flat.state_int(model)])
+            elif op[0] == 'setignore':
+                machine.ignore_invalid_triggers = bool(op[1])
             else:
                 _, e, src, dst = op
                 kw = {}
@@ -1415,7 +1515,7 @@ def stats(case, obs, dist):
             if op[0] == 'remove':
                 if op[3] is not None:
                     filt.setdefault(op[1], set()).add(op[2])
-            else:
+            elif op[0] == 'trig':
                 if k < len(base):
                     srcs = filt.get(op[2], set())
                     if srcs and (st in srcs or None in srcs):
@@ -1423,6 +1523,21 @@ def stats(case, obs, dist):
                     st = base[k][2]
                 k += 1
         inc('reconf_calls_of_a_dest_filtered_trigger_from_the_filtered_source', hit)
+        if case.get('ctor'):
+            # calls answered False / raising after the machine flag was changed, in a state that snapshot the old flag
+            after, n_calls, k = False, 0, 0
+            st = case['init']
+            for op in case['ops']:
+                if op[0] == 'setignore':
+                    after = True
+                elif op[0] == 'trig':
+                    if after and k < len(base) and st in case['ctor']['omit'] and not base[k][0]:
+                        n_calls += 1
+                    if k < len(base):
+                        st = base[k][2]
+                    k += 1
+            inc('ctor_item_free_calls_after_flag_change_in_a_state_without_own_flag', n_calls)
+            inc('ctor_transitions_given_positionally', sum(len(ts) for _, ts in case['machine']['events']))
     inc('class_runs', len(verdicts))
     inc('class_runs_equal_to_Machine', sum(1 for _, v, _f in verdicts if v == 1))
     inc('async_runs_outside_async_envelope_equal_to_AsyncMachine', sum(1 for _, v, _f in verdicts if v == 2))
